@@ -32,6 +32,112 @@ def _run_check(prop, repo):
     return p.returncode, fired
 
 
+CLIPPY_LINTS = ["unwrap_used", "expect_used", "indexing_slicing", "string_slice", "arithmetic_side_effects", "panic", "unreachable", "todo", "unimplemented"]
+
+
+def clippy_crossref(rep):
+    """C01: every hit of clippy's opt-in panic-site lints in the library sources must be a site of the
+    inventory (completeness of the inventory; the lints themselves give no verdict)."""
+    from .mir import Program, norm_file
+    from .rules import C01, C16
+
+    prog = Program()
+    reach = prog.reachable(C16.roots(prog), crates=C01.LIB)
+    sites = C01.inventory(prog, reach.keys())
+    lines = set()
+    for (k, bb), (kind, what, where) in sites.items():
+        lines.add(where)
+    # asserts/calls carry the span of the terminator; add the statement spans of the same blocks
+    for (k, bb) in sites:
+        b = prog.bodies[k]
+        for st in b.blocks[bb]["stmts"]:
+            if "span" in st:
+                lines.add("%s:%s" % (norm_file(st["span"]["file"]), st["span"]["line"]))
+    tdir = os.path.join(os.environ.get("PV_SCRATCH", "/var/tmp"), "pv-clippy-%d" % os.getpid())
+    cmd = ["cargo", "+nightly", "clippy", "--offline", "-p", "precis-core", "-p", "precis-profiles", "--message-format=json", "--"]
+    for l in CLIPPY_LINTS:
+        cmd += ["-W", "clippy::" + l]
+    env = dict(os.environ, CARGO_NET_OFFLINE="true", CARGO_TARGET_DIR=tdir)
+    try:
+        p = subprocess.run(cmd, cwd=facts.REPO, env=env, stdout=subprocess.PIPE, stderr=subprocess.DEVNULL, text=True)
+    finally:
+        shutil.rmtree(tdir, ignore_errors=True)
+    hits = []
+    for l in p.stdout.splitlines():
+        try:
+            d = json.loads(l)
+        except ValueError:
+            continue
+        if d.get("reason") != "compiler-message":
+            continue
+        m = d["message"]
+        code = (m.get("code") or {}).get("code") or ""
+        if code.replace("clippy::", "") not in CLIPPY_LINTS:
+            continue
+        for sp in m["spans"]:
+            if sp["is_primary"] and (sp["file_name"].startswith("precis-core/src") or sp["file_name"].startswith("precis-profiles/src")):
+                hits.append((code, sp["file_name"], sp["line_start"]))
+    if p.returncode != 0 and not hits:
+        rep.ob("inventory-crossref", "clippy run", False, "cargo clippy failed (exit %d)" % p.returncode, key="analysis-error|clippy")
+        return
+    missing = [h for h in hits if "%s:%s" % (h[1], h[2]) not in lines]
+    rep.ob("inventory-crossref", "every clippy panic-site hit (%d) is an inventoried site" % len(hits), not missing, "not in the inventory: %s" % missing[:5], key="inventory-crossref|clippy")
+    rep.extra["clippy_hits"] = len(hits)
+
+
+WITNESS_LIB = """//! Compile-time witnesses for C16, built against the repository's current tree.
+//!
+//! A look-alike carrying interior state must NOT pass the bound (the witness can fail):
+//! ```compile_fail,E0277
+//! fn w<T: Send + Sync + Copy + 'static>() {}
+//! struct Lookalike(std::cell::Cell<u8>);
+//! w::<Lookalike>();
+//! ```
+//! and its twin without the cell passes (the failure above is due to the cell, not to a typo):
+//! ```
+//! fn w<T: Send + Sync + Copy + 'static>() {}
+//! #[derive(Clone, Copy)]
+//! struct Twin(u8);
+//! w::<Twin>();
+//! ```
+fn w<T: Send + Sync + Copy + 'static>() {}
+const fn zst<T>() -> bool {
+    core::mem::size_of::<T>() == 0
+}
+pub fn witness() {
+    w::<precis_profiles::Nickname>();
+    w::<precis_profiles::OpaqueString>();
+    w::<precis_profiles::UsernameCaseMapped>();
+    w::<precis_profiles::UsernameCasePreserved>();
+    w::<precis_core::IdentifierClass>();
+    w::<precis_core::FreeformClass>();
+}
+const _: () = assert!(zst::<precis_profiles::Nickname>() && zst::<precis_profiles::OpaqueString>() && zst::<precis_profiles::UsernameCaseMapped>() && zst::<precis_profiles::UsernameCasePreserved>() && zst::<precis_core::IdentifierClass>() && zst::<precis_core::FreeformClass>());
+"""
+
+
+def witness_c16(rep):
+    """C16: the type checker itself must accept Send + Sync + Copy + zero size for the six public types
+    (a harness crate path-depending on the repository), with a compile_fail twin proving the witness can fail."""
+    d = os.path.join(os.environ.get("PV_SCRATCH", "/var/tmp"), "pv-witness-%d" % os.getpid())
+    shutil.rmtree(d, ignore_errors=True)
+    os.makedirs(os.path.join(d, "src"))
+    try:
+        open(os.path.join(d, "Cargo.toml"), "w").write(
+            '[package]\nname = "pv-witness"\nversion = "0.0.0"\nedition = "2021"\n\n[workspace]\n\n[dependencies]\nprecis-core = { path = "%s/precis-core" }\nprecis-profiles = { path = "%s/precis-profiles" }\n' % (facts.REPO, facts.REPO)
+        )
+        open(os.path.join(d, "src", "lib.rs"), "w").write(WITNESS_LIB)
+        lock = os.path.join(facts.REPO, "Cargo.lock")
+        if os.path.exists(lock):
+            shutil.copy(lock, os.path.join(d, "Cargo.lock"))
+        env = dict(os.environ, CARGO_NET_OFFLINE="true", CARGO_TARGET_DIR=os.path.join(d, "target"))
+        p = subprocess.run(["cargo", "+nightly", "test", "--offline", "--doc"], cwd=d, env=env, stdout=subprocess.PIPE, stderr=subprocess.STDOUT, text=True)
+        ok = p.returncode == 0 and "2 passed" in p.stdout
+        rep.ob("type-witness", "six public types are Send + Sync + Copy + zero-sized (rustc), compile_fail twin fails for a Cell look-alike", ok, p.stdout[-600:] if not ok else "", key="type-witness|build")
+    finally:
+        shutil.rmtree(d, ignore_errors=True)
+
+
 def extend(rep, prop):
     sys.path.insert(0, os.path.join(VERIF, "selftest"))
     import cases as corpus
@@ -46,6 +152,10 @@ def extend(rep, prop):
                 meta = json.load(open(mp))
                 if prop in meta.get("checks_fired", {}) and meta.get("confirmed"):
                     seeds.append((name, os.path.join(sdir, name, "patch.diff")))
+    if prop == "C01":
+        clippy_crossref(rep)
+    if prop == "C16":
+        witness_c16(rep)
     dst = _scratch()
     n_break = n_keep = n_seed = 0
     t0 = time.time()
